@@ -82,6 +82,7 @@ type c05Case struct {
 	required  bool
 	allowEmpt bool
 	reverse   bool
+	neighbour int // 0 none; 1 another parameter whose name starts with this one's name travels in the same place; 2 one whose name ends with it
 }
 
 func (c c05Case) sig() string {
@@ -89,7 +90,7 @@ func (c c05Case) sig() string {
 	if c.presence == "present" {
 		v = CanonJSON(c.shape.values[c.vi])
 	}
-	return fmt.Sprintf("%s declared=%d %s schema#%d value=%s presence=%s required=%v allowEmptyValue=%v reversed=%v", c.cell, c.declared, c.shape.name, c.si, v, c.presence, c.required, c.allowEmpt, c.reverse)
+	return fmt.Sprintf("%s declared=%d %s schema#%d value=%s presence=%s required=%v allowEmptyValue=%v reversed=%v neighbour=%d", c.cell, c.declared, c.shape.name, c.si, v, c.presence, c.required, c.allowEmpt, c.reverse, c.neighbour)
 }
 
 // c05Build makes the parameter and the request input for a case.
@@ -114,6 +115,28 @@ func c05Build(c c05Case) (*openapi3.Parameter, *openapi3filter.RequestValidation
 	}
 	req, _ := http.NewRequest("GET", "http://h.example/r", nil)
 	in := &openapi3filter.RequestValidationInput{Request: req, PathParams: map[string]string{"other": "1"}, Options: &openapi3filter.Options{}}
+	// a neighbouring parameter of a similar name, carrying text that is not valid for this parameter
+	if c.neighbour != 0 {
+		nb := map[int]string{1: name + "q", 2: "q" + name}[c.neighbour]
+		var nbValue any = "zz"
+		if c.cell.Style == "deepObject" {
+			nbValue = map[string]any{"a": "zz", "zz": "1"}
+		}
+		ns := ref.Serialize(c.cell, nb, nbValue, false)
+		if !ns.OK {
+			return nil, nil, nil, errors.New("not expressible")
+		}
+		switch c.cell.In {
+		case "path":
+			in.PathParams[nb] = ns.PathValue
+		case "query":
+			req.URL.RawQuery = ns.RawQuery()
+		case "header":
+			req.Header.Set(nb, ns.Header)
+		case "cookie":
+			req.AddCookie(&http.Cookie{Name: nb, Value: ns.Cookie})
+		}
+	}
 	var ser ref.Serialized
 	switch c.presence {
 	case "present":
@@ -132,7 +155,10 @@ func c05Build(c c05Case) (*openapi3.Parameter, *openapi3filter.RequestValidation
 	case "path":
 		in.PathParams[name] = ser.PathValue
 	case "query":
-		req.URL.RawQuery = ser.RawQuery()
+		if req.URL.RawQuery != "" {
+			req.URL.RawQuery += "&"
+		}
+		req.URL.RawQuery += ser.RawQuery()
 	case "header":
 		req.Header.Set(name, ser.Header)
 	case "cookie":
@@ -146,7 +172,7 @@ func init() {
 	core.Register(&core.Check{
 		ID: "C05",
 		Rule: "the complete legal table in x style x explode (17 cells) x 13 schema shapes (integer, number, boolean, string, arrays of each, flat object, nested object/array for deepObject, allOf/oneOf/anyOf of primitives; each with and without a constraint so that accept and reject occur) x every value of the shape " +
-			"x presence {present, absent, empty, garbage} x required x allowEmptyValue; deviations: object properties serialised in reverse order, descending map iteration. The value is serialised by an independent OAS/RFC6570 serialiser; the decoded value (hook) must equal it, ValidateParameter must accept iff the reference evaluator does, " +
+			"x presence {present, absent, empty, garbage} x required x allowEmptyValue; deviations: object properties serialised in reverse order, a neighbouring parameter whose name starts or ends with this one's name travelling in the same place with text invalid for this one, descending map iteration. The value is serialised by an independent OAS/RFC6570 serialiser; the decoded value (hook) must equal it, ValidateParameter must accept iff the reference evaluator does, " +
 			"absent required => ErrInvalidRequired, absent optional => nil, garbage => an error. non-trivial = presence is not 'absent' and the serialisation is invertible",
 		Assumptions: []string{
 			"reference serialiser mc/ref/style.go implements the OAS 3.0.3 style table; (cell,value) pairs the table cannot invert (a string containing the style's delimiter, empty collections, label-style decimals) are skipped and counted",
@@ -157,7 +183,12 @@ func init() {
 		Bounds:        func(tier string) map[string]any { return map[string]any{"cells": len(ref.Cells), "shapes": len(c05Shapes), "presence_classes": 4} },
 		MinOutcomes:   4,
 		ShrinkVectors: true,
-		DevBound:      func(string) int { return 1 },
+		DevBound: func(tier string) int {
+			if tier == "thorough" {
+				return 2
+			}
+			return 1
+		},
 		Body: func(r *core.Run, x *explore.X) {
 			var c c05Case
 			c.cell = explore.Pick(x, ref.Cells)
@@ -186,6 +217,7 @@ func init() {
 				}
 			}
 			c.reverse = x.Deviate(2) == 1
+			c.neighbour = x.Deviate(3)
 			order := x.Deviate(2)
 			if !r.Own(x) {
 				return
